@@ -17,7 +17,7 @@ func init() {
 		Level: "exploration",
 		Rule: "streams built by the independent reference multiplexer from random models (1..8 PIDs: PAT, PMT PIDs announced by it, DVB SI PIDs, PES PIDs; bounded and unbounded PES; " +
 			"PSI units of 1..n sections over 1..6+ packets; pointer_field 0..n; adaptation stuffing in any packet; trailing 0xFF or exact fit; random interleaving; PMT units that start before and end after the PAT announcing them) demultiplexed with NextData (seekable and read-only readers; a quarter of the runs after an initial Rewind or in the 188+k framing); " +
-			"plus enumeration of every first-chunk and last-chunk size (thorough: every pair) of selected units; distinct = hash of the stream bytes; non-trivial = ≥2 units delivered on ≥2 PIDs or a multi-packet unit",
+			"plus sparse PIDs silent for up to 262 200 packets of other PIDs (stage endurance); plus enumeration of every first-chunk and last-chunk size (thorough: every pair) of selected units; distinct = hash of the stream bytes; non-trivial = ≥2 units delivered on ≥2 PIDs or a multi-packet unit",
 		Assumptions: []string{"units are packet aligned and start with payload_unit_start; on PAT/PMT PIDs an interior section boundary never coincides with a packet boundary (ISO 13818-1 requires payload_unit_start for a section start)",
 			"the PAT unit announcing a PMT PID is complete before the final packet of that PID's first unit (stage straddle: before the first packet elsewhere)", "table contents are simple and carry the unit id (field fidelity is C13's subject)",
 			"discontinuity_indicator is never set (C06 covers it)"},
@@ -35,6 +35,7 @@ func init() {
 			need(m, &out, "multi_section_units", 100)
 			need(m, &out, "exhaustive_split_streams", 1000)
 			need(m, &out, "long_streams", 6)
+			need(m, &out, "endurance_sparse_streams", 8)
 			need(m, &out, "streams_with_giant_units", 12)
 			need(m, &out, "streams_through_a_plain_reader", 300)
 			need(m, &out, "streams_after_an_initial_rewind", 150)
@@ -475,6 +476,12 @@ func runC02(c *mon.Ctx) {
 		c.Count("long_streams")
 		c.Max("long_stream_packets", int64(len(s.Packets)))
 		c.Case(mon.HashBytes("c02long", s.Bytes[:3760]), true)
+	}
+	// endurance: PIDs that stay silent while tens of thousands of packets of other PIDs pass (65536 and 131072 among the gaps)
+	for i := int64(0); i < c.Pick(8, 40); i++ {
+		if c.Mine("endurance", i) {
+			sparseCase(c, "C02", "endurance", i)
+		}
 	}
 	// exhaustive cuts: every first-chunk size and every last-chunk size of one unit inside a small context
 	ne := c.Pick(120, 2500)
